@@ -229,6 +229,7 @@ def list_ops(inner):
         st.tuples(st.just("pop"), IDX), st.tuples(st.just("pop"), IDX), st.tuples(st.just("remove"), it),
         st.tuples(st.just("sort")), st.tuples(st.just("reverse")), st.tuples(st.just("clear")),
         st.tuples(st.just("setitem"), IDX, it), st.tuples(st.just("delitem"), IDX), st.tuples(st.just("delitem"), IDX),
+        st.tuples(st.just("setitem_idx"), IDX, it),          # the key is an integer-like object (only __index__)
         st.tuples(st.just("setslice"), SL, its), st.tuples(st.just("setslice"), SL, its),
         st.tuples(st.just("delslice"), SL), st.tuples(st.just("assign"), st.lists(it, max_size=5)),
         st.tuples(st.just("assign_copy"), st.lists(it, max_size=2)), st.tuples(st.just("assign_twin"), st.lists(it, max_size=4)),
@@ -241,6 +242,8 @@ def dict_ops(k, v):
     pairs = st.lists(st.tuples(K, V).map(list), max_size=3)
     return st.one_of(
         st.tuples(st.just("set"), K, V), st.tuples(st.just("set"), K, V), st.tuples(st.just("del"), K),
+        # update(name=value): either not supported at all (TypeError, nothing changes) or validated like any other update
+        st.tuples(st.just("update_kw"), st.sampled_from(["a", "b", "1", "two"]), V),
         st.tuples(st.just("update"), pairs), st.tuples(st.just("ior"), pairs), st.tuples(st.just("setdefault"), K, V),
         st.tuples(st.just("pop"), K), st.tuples(st.just("popitem")), st.tuples(st.just("clear")),
         st.tuples(st.just("assign"), pairs), st.tuples(st.just("assign_other"), st.sampled_from([None, 5, [1]])),
@@ -335,7 +338,7 @@ def m_list(m, op, c):
         m.reverse()
     elif k == "clear":
         m.clear()
-    elif k == "setitem":
+    elif k in ("setitem", "setitem_idx"):
         v = c(op[2]); m[op[1]] = v
     elif k == "delitem":
         del m[op[1]]
@@ -374,6 +377,8 @@ def r_list(l, op):
         l.clear()
     elif k == "setitem":
         l[op[1]] = op[2]
+    elif k == "setitem_idx":
+        l[_Idx(op[1])] = op[2]
     elif k == "delitem":
         del l[op[1]]
     elif k == "setslice":
@@ -400,6 +405,8 @@ def m_dict(m, op, ck, cv):
         del m[op[1]]
     elif k in ("update", "ior"):
         m.update(pairs(op[1]))
+    elif k == "update_kw":
+        m.update(pairs([[op[1], op[2]]]))
     elif k == "setdefault":
         if op[1] in m:
             return m
@@ -423,6 +430,8 @@ def r_dict(d, op):
         del d[op[1]]
     elif k == "update":
         d.update([tuple(p) for p in op[1]])
+    elif k == "update_kw":
+        d.update(**{op[1]: op[2]})
     elif k == "ior":
         d |= dict([tuple(p) for p in op[1]])
     elif k == "setdefault":
@@ -742,6 +751,8 @@ def run(case, ctx):
                 ctx.fail("failure/changed", "op raised %r but contents changed: %s -> %r" % (exc, what(), plain(getattr(o, name))))
             if ev:
                 ctx.fail("failure/notified", "op raised %r but notified %r: %s" % (exc, ev, what()))
+            if k == "update_kw" and isinstance(exc, TypeError):
+                continue          # (the keyword form is simply not offered: refused before anything happened)
             if not allowed:
                 ctx.fail("model/legal-op-rejected", "legal op raised %r: %s expected=%r" % (exc, what(), expected))
             if type(exc) not in allowed:
